@@ -74,7 +74,12 @@ def main(argv=None):
 def do_replay(mod, path):
     with open(path) as fh:
         obj = json.load(fh)
-    res = mod.replay(obj)
+    if obj.get("kind") == "whole_run":
+        # the run in which the violation was found, repeated from its seed (a violation
+        # that needs what earlier evaluations of the same run left behind in the process)
+        res = mod.run_one(int(obj["run_seed"]), int(obj["run_index"]), obj.get("tier", "quick"))
+    else:
+        res = mod.replay(obj)
     want = (obj.get("expect") or {}).get("oracle")
     vs = res.get("violations", [])
     print(f"replay {path}: digest={res.get('digest')} violations={[v['oracle'] for v in vs]}")
@@ -150,6 +155,17 @@ def do_check(mod, args, master):
                     code, out = runner.replay_in_fresh_interpreter(mod.ID, path)
                     rep2["replay_verified_in_fresh_interpreter"] = code == runner.EXIT_VIOLATION
                     rep = rep2
+            if code != runner.EXIT_VIOLATION and hasattr(mod, "run_one"):
+                # last resort, for every property: repeat the whole run from its seed
+                rep3 = {"property": mod.ID, "kind": "whole_run", "run_seed": v["run_seed"], "run_index": v["i"], "tier": tier,
+                        "expect": {"oracle": v["oracle"]}, "found": rep.get("found"),
+                        "minimised": "the minimised replay did not reproduce on its own; this file repeats the whole run from its seed"}
+                with open(path, "w") as fh:
+                    json.dump(rep3, fh, indent=1, default=repr)
+                    fh.write("\n")
+                code, out = runner.replay_in_fresh_interpreter(mod.ID, path)
+                rep3["replay_verified_in_fresh_interpreter"] = code == runner.EXIT_VIOLATION
+                rep = rep3
         except Exception as e:  # noqa: BLE001
             rep["replay_verified_in_fresh_interpreter"] = f"error: {e!r}"
         with open(path, "w") as fh:
